@@ -215,13 +215,9 @@ func (g *gen) pathData() string {
 	for s := 0; s < subs; s++ {
 		fmt.Fprintf(&sb, "M%s %s", num(g.coord()), num(g.coord()))
 		n := 1 + c.Intn(4)
-		lastH := false
 		for i := 0; i < n; i++ {
 			k := c.Intn(5)
-			if k == 2 && lastH {
-				k = 0 // two H in a row may backtrack, which the path builder's LineTo merges away (a C10 matter)
-			}
-			lastH = k == 2
+			// (two H in a row may backtrack; LineTo's reversal merge was fixed upstream in 219108c, so they are generated again)
 			switch k {
 			case 0, 1:
 				fmt.Fprintf(&sb, "L%s %s", num(g.coord()), num(g.coord()))
